@@ -983,7 +983,21 @@ where
   fn poll(mut self: Pin<&mut Self>, cx: &mut Context<'_>) -> Poll<Self::Output> {
     match self.writer_command.take() {
       Some(wc) => {
-        match self.writer.cc_upload.try_send(wc) {
+        // If the queue is full, store our waker and then try once more: the Writer
+        // may have made room between our failed attempt and storing the waker. In
+        // that case it has already done its waking, and nobody would wake us.
+        let send_result = match self.writer.cc_upload.try_send(wc) {
+          Err(TrySendError::Full(wc)) => {
+            #[cfg(rustdds_verif)]
+            crate::verif_hooks::sched::yield_point("dw.write_full");
+            *self.writer.cc_upload_waker.lock().unwrap() = Some(cx.waker().clone());
+            #[cfg(rustdds_verif)]
+            crate::verif_hooks::sched::yield_point("dw.write_waker_stored");
+            self.writer.cc_upload.try_send(wc)
+          }
+          other => other,
+        };
+        match send_result {
           Ok(()) => {
             self.writer.refresh_manual_liveliness();
             Poll::Ready(Ok(SampleIdentity {
@@ -992,7 +1006,6 @@ where
             }))
           }
           Err(TrySendError::Full(wc)) => {
-            *self.writer.cc_upload_waker.lock().unwrap() = Some(cx.waker().clone());
             if Instant::now() < self.timeout_instant {
               // Put our command back
               self.writer_command = Some(wc);
@@ -1100,36 +1113,56 @@ where
           _ => unreachable!(),
         };
 
-        match writer
-          .cc_upload
-          .try_send(WriterCommand::WaitForAcknowledgments {
-            all_acked: ack_wait_sender,
-          }) {
-          Ok(()) => {
-            *self = AsyncWaitForAcknowledgments::Waiting { ack_wait_receiver };
-            Poll::Pending
-          }
+        let mut command = WriterCommand::WaitForAcknowledgments {
+          all_acked: ack_wait_sender,
+        };
+        let mut waker_registered = false;
+        loop {
+          match writer.cc_upload.try_send(command) {
+            Ok(()) => {
+              *self = AsyncWaitForAcknowledgments::Waiting { ack_wait_receiver };
+              // The command is on its way. Poll the response channel right away,
+              // so that our waker gets registered there. Returning Pending without
+              // a registered waker would leave this future sleeping forever.
+              #[cfg(rustdds_verif)]
+              crate::verif_hooks::sched::yield_point("dw.ack_cmd_sent");
+              return self.poll(cx);
+            }
 
-          Err(TrySendError::Full(WriterCommand::WaitForAcknowledgments {
-            all_acked: ack_wait_sender,
-          })) => {
-            *self = AsyncWaitForAcknowledgments::WaitingSendCommand {
-              writer,
-              ack_wait_receiver,
-              ack_wait_sender,
-            };
-            Poll::Pending
+            Err(TrySendError::Full(WriterCommand::WaitForAcknowledgments { all_acked })) => {
+              if waker_registered {
+                // Still no room. The Writer will wake us when it has made some.
+                *self = AsyncWaitForAcknowledgments::WaitingSendCommand {
+                  writer,
+                  ack_wait_receiver,
+                  ack_wait_sender: all_acked,
+                };
+                return Poll::Pending;
+              }
+              // Command queue is full. Ask the Writer to wake us when it has made
+              // room (like AsyncWrite does), and then try once more, in case the
+              // room was made just before the waker was stored.
+              #[cfg(rustdds_verif)]
+              crate::verif_hooks::sched::yield_point("dw.ack_full");
+              *writer.cc_upload_waker.lock().unwrap() = Some(cx.waker().clone());
+              #[cfg(rustdds_verif)]
+              crate::verif_hooks::sched::yield_point("dw.ack_waker_stored");
+              waker_registered = true;
+              command = WriterCommand::WaitForAcknowledgments { all_acked };
+            }
+            Err(TrySendError::Full(_other_writer_command)) =>
+            // We are sending WaitForAcknowledgments, so the channel
+            // should return only that, if any.
+            {
+              unreachable!()
+            }
+            Err(e) => {
+              return Poll::Ready(Err(WriteError::Poisoned {
+                reason: format!("{e}"),
+                data: (),
+              }))
+            }
           }
-          Err(TrySendError::Full(_other_writer_command)) =>
-          // We are sending WaitForAcknowledgments, so the channel
-          // should return only that, if any.
-          {
-            unreachable!()
-          }
-          Err(e) => Poll::Ready(Err(WriteError::Poisoned {
-            reason: format!("{e}"),
-            data: (),
-          })),
         }
       }
     }
